@@ -239,6 +239,20 @@ def _every_source_consulted(ck, gts, clo, lp, src, slot_h=None):
 def _recompress_ok(ck, fn, rc, src_hid, path):
     ok = False
     desc = ""
+    # the re-encoding is applied on every path that delivers the tile: it sits under exactly the conditions of the delivery
+    # (the `return Ok(Some(..))` of the lookup, the slot assignment of the stream) — a format- or size-dependent skip is not allowed
+    if len(rc) == 1:
+        def guards_of(target):
+            for n, parents, _ in ir.walk(fn["body"]):
+                if n is target:
+                    return [id(p) for p in parents if p.get("k") in ("if", "match")]
+            return None
+        deliver = [n for n in ir.walk_nodes(fn["body"]) if (n.get("k") == "ret" and ir.contains(n, lambda y: (y.get("q") or "").endswith("Option::Some::{Ctor#0}")))
+                   or (n.get("k") == "assign" and n["l"].get("k") == "index")]
+        g_rc = guards_of(rc[0])
+        uncond = bool(deliver) and all(guards_of(d) is not None and g_rc == guards_of(d)[:len(g_rc)] and len(g_rc) <= len(guards_of(d)) for d in deliver)
+        ck.check(uncond, "E-COMP", fn["q"] + "|" + path + "|unconditional", "%s: every delivered tile passes the re-encoding (no condition skips it)" % path,
+                 "%s: the re-encoding is skipped under a condition that does not skip the delivery: the tile is handed on in its source's compression while the overlay declares another" % path, ir.loc(rc[0]))
     if len(rc) == 1:
         a0, a1, a2 = rc[0]["a"]
         p1 = ir.place_str(a1)
